@@ -6,9 +6,9 @@ import (
 	"bufio"
 	"fmt"
 	"io"
-	"os"
 	"math"
 	"math/big"
+	"os"
 	"os/exec"
 	"strconv"
 	"strings"
